@@ -224,8 +224,21 @@ var plans = map[string]*propertyPlan{
 		Explain: "Local no-wedge disciplines: every send on a router channel is credited (cannot block) for non-streaming routers; no blocking operation while holding responseMut, mu, RawManager.mu or (beyond SendMsg/NodeStream) streamMut; the lock-order graph is acyclic; reply channels have capacity for every registration; a streaming call removes the router of every node of its configuration when it ends. No global liveness claim."},
 	"C10": {ID: "C10", Level: "other", Pkgs: rootPkg, Extra: reconnectWakeup,
 		Explain: "Every NodeStream call site derives its context from the channel's parent context, which newContext builds from the general metadata joined with the per-node metadata of exactly this node; the sender tries to connect before judging a request; newNodeStream starts the receiver at most once; the server's connect callback runs exactly once per connection before the first receive. Clause b (no back-off wait) only as a structural wake-up condition."},
-	"C11": {ID: "C11", Level: "proof", Pkgs: rootPkg, Extra: modeScan("C11"),
-		Explain: "Correctable is verified as a monitor (invariant over level, done, the watcher slots and the closed-ness of their channels, re-established at every unlock); set's two loops carry quantified invariants (no double close, every watcher at or below the level released); the handler loop is proved to publish exactly the quorum function's level and value whenever the level rises, before it blocks again, to complete exactly once under the three stated conditions and never to lower a level."},
+	"C11": {ID: "C11", Level: "proof", Pkgs: rootPkg, Gen: true, GenServers: true,
+		Extra: combine(modeScan("C11"), func(s *Session, tier string) []*FuncResult {
+			if curGen == nil {
+				return nil
+			}
+			// "the typed accessors return without panicking at every moment": they are generated code
+			var out []*FuncResult
+			for _, fr := range curGen.VerifyAccessors(s, "C11") {
+				if strings.Contains(fr.Name, ".Correctable") {
+					out = append(out, fr)
+				}
+			}
+			return out
+		}),
+		Explain: "Correctable is verified as a monitor (invariant over level, done, the watcher slots and the closed-ness of their channels, re-established at every unlock); set's two loops carry quantified invariants (no double close, every watcher at or below the level released); the handler loop is proved to publish exactly the quorum function's level and value whenever the level rises, before it blocks again, to complete exactly once under the three stated conditions and never to lower a level. The typed Get accessors of the regenerated stubs are verified panic-free for every state of the raw object (no reply yet, error, reply)."},
 	"C12": {ID: "C12", Level: "other", Pkgs: rootPkg,
 		Explain: "Close visits every pooled node (closeNodeConns over a snapshot), cancels before closing the connection and cannot panic for any option; sender, receiver and reconnect block only on points guarded by the channel's parent context (or external stream calls on contexts derived from it); enqueue after Close answers the request instead of queuing when only the closed branch is enabled, and never panics; one-way calls are released by their own context."},
 	"C13": {ID: "C13", Level: "proof", Pkgs: rootPkg,
